@@ -296,7 +296,7 @@ prop("C10",
 
 
 prop("C09",
-     units=["parens", "parensmoved", "separators", "errprint"],
+     units=["parens", "parensmoved", "parselevels", "separators", "errprint"],
      level="proof",
      claim="slice (the printer's side of the round trip, arm by arm, verbatim code): for every operator node — comparison, &, + -, * /, ^, unary minus, %, range ':', '@', '#' — the arm "
            "of stringify (display form in every language/locale, stored R1C1 form, xlsx form) and of to_string_moved (cut and paste) prints an operand in parentheses whenever "
@@ -304,8 +304,10 @@ prop("C09",
            "level table; stringify_operand / to_string_moved_operand wrap exactly when precedence < level), so the text parses back to the same tree at that node; the separators "
            "between arguments / array rows / array elements are lexed as the tokens the parser expects (separators) and error literals are printed in the language given (errprint). "
            "One listed known finding: a+(b+c) is printed a+b+c (required by the suite's test correct_parenthesis; =1E16+(-1E16+1) is 0 when typed, 1 after print and re-read)",
-     assumptions=["the grammar levels (1 comparison .. 9 primary) are those of the parser's descent parse_expr > parse_concat > parse_term > parse_factor > parse_prod > parse_power > "
-                  "parse_range > parse_implicit > parse_primary, read from that chain; the parser itself is not under contract",
+     assumptions=["the grammar levels (1 comparison .. 9 primary): unit parselevels proves, on the eight real functions parse_expr .. parse_implicit, which operator each level "
+                  "consumes and which level's function reads each operand (right operands and the leftmost operand from the level above; '-' then a range-level operand then '%'s; "
+                  "':' between an implicit-level and a primary operand) — the same table; NOT proved: that the two sides compose into parse(print(t)) == t (token-level "
+                  "induction over the lexer state), and parse_primary",
                   "format! is read, per format string used by the arms, as a shim recording the structure of the text (local macro in the unit file); the characters printed for "
                   "an operator are not specified", "what a child prints is T::Of(child) (the recursive call is a stub)"],
      residual="the parser (that it implements the levels), leaves (numbers, strings with quotes, references: units refshift / colcodec / quoting under C22), function-call and LAMBDA/LET "
